@@ -233,7 +233,7 @@ theorem selected_port_abs {cfg : Cfg} (e : FEntry) (he : EntryOk cfg e) (m : OfM
   · simp only [Bool.false_eq_true, if_false, Bool.true_and]
     exact port_filter_abs e outPort _
   · simp only [if_true, Bool.true_and]
-    rw [Bool.and_assoc, Bool.and_assoc]
+    rw [Bool.and_assoc]
     exact port_filter_abs e outPort _
 
 /-- statistics requests: subsumption by the request's match, with the `out_port` filter -/
@@ -569,8 +569,8 @@ theorem bufferUse_refines (s : State) (id : Nat) (a : List Action) :
   · simp [h0, abs, absOut]
   · by_cases hlen : id - 1 ≥ s.pool.slots.length
     · have hnone : s.pool.slots[id - 1]? = none := List.getElem?_eq_none (by omega)
-      have hcond : ¬ (id ≠ 0 ∧ id - 1 < s.pool.slots.length) := by omega
-      simp [h0, hlen, hnone, hcond, abs, absOut]
+      have hnlt : ¬ id - 1 < s.pool.slots.length := by omega
+      simp [h0, hlen, hnone, hnlt, abs, absOut]
     · have hlt : id - 1 < s.pool.slots.length := by omega
       have hget : s.pool.slots[id - 1]? = some (s.pool.slots[id - 1]) := List.getElem?_eq_getElem hlt
       have hcond : id ≠ 0 ∧ id - 1 < s.pool.slots.length := ⟨h0, hlt⟩
@@ -650,7 +650,7 @@ theorem flowModAdd_bounded (s : State) (fm : FlowModMsg) (h : s.table.length ≤
     · exact h
     · split
       · exact Nat.le_trans hb h
-      · have := (addEntry_perm (mkEntry s.now fm) (addBase s fm)).length_eq
+      · have := (addEntry_perm (mkEntry s.cfg s.now fm) (addBase s fm)).length_eq
         simp only [List.length_cons] at this
         simp only [this]
         omega
@@ -663,17 +663,24 @@ theorem flowModModify_bounded (s : State) (fm : FlowModMsg) (strict : Bool) (h :
   · simpa using h
   · exact flowModAdd_bounded s fm h
 
+theorem flowModHandler_bounded (s : State) (fm : FlowModMsg) (h : s.table.length ≤ s.maxEntries) :
+    (flowModHandler s fm).1.table.length ≤ (flowModHandler s fm).1.maxEntries := by
+  unfold flowModHandler
+  split
+  · exact flowModAdd_bounded s fm h
+  · exact flowModModify_bounded s fm false h
+  · exact flowModModify_bounded s fm true h
+  · exact Nat.le_trans (List.length_filter_le _ _) h
+  · exact Nat.le_trans (List.length_filter_le _ _) h
+  · exact h
+
 theorem step_bounded (s : State) (op : Op) (h : s.table.length ≤ s.maxEntries) :
     (step s op).1.table.length ≤ (step s op).1.maxEntries := by
   cases op with
   | flowMod fm =>
-    simp only [step, flowModStep]
-    split
-    · exact flowModAdd_bounded s fm h
-    · exact flowModModify_bounded s fm false h
-    · exact flowModModify_bounded s fm true h
-    · exact Nat.le_trans (List.length_filter_le _ _) h
-    · exact Nat.le_trans (List.length_filter_le _ _) h
+    show (flowModStep s fm).1.table.length ≤ (flowModStep s fm).1.maxEntries
+    rw [flowModStep_table, flowModStep_maxEntries]
+    exact flowModHandler_bounded s fm h
   | packet p port len =>
     simp only [step, packetStep]
     split
@@ -684,56 +691,67 @@ theorem step_bounded (s : State) (op : Op) (h : s.table.length ≤ s.maxEntries)
   | flowStats m o => exact h
   | aggStats m o => exact h
 
-theorem entryOk_of_kept (s : State) (e' : FEntry) (hk : Kept s e') (hok : ∀ e ∈ s.table, EntryOk e) : EntryOk e' := by
+theorem entryOk_of_kept (s : State) (e' : FEntry) (hk : Kept s e') (hok : ∀ e ∈ s.table, EntryOk s.cfg e) : EntryOk s.cfg e' := by
   obtain ⟨e, he, hm, hp, _, _, _, _, _, _, hf, _, hw⟩ := hk
   have := hok e he
   exact ⟨by rw [hm, hw]; exact this.wf, by rw [hw]; exact this.mok, by rw [hp]; exact this.prio, by rw [hf]; exact this.noEmerg⟩
 
-theorem step_inv (s : State) (op : Op) (hi : Inv s) (ho : OpOk op) : Inv (step s op).1 := by
+theorem step_inv (s : State) (op : Op) (hi : Inv s) (ho : OpOk s.cfg op) : Inv (step s op).1 := by
   refine ⟨step_sorted s op hi.sorted, ?_, step_bounded s op hi.bounded⟩
+  rw [step_cfg]
   intro e' he'
   rcases step_clocks s op e' he' with hk | ⟨p, port, len, rfl, e, he, _, rfl⟩ | ⟨fm, rfl, rfl, hE⟩
   · exact entryOk_of_kept s e' hk hi.ok
   · have := hi.ok e he
     exact ⟨this.wf, this.mok, this.prio, this.noEmerg⟩
-  · exact mkEntry_ok s.now fm ho hE
+  · exact mkEntry_ok s.cfg s.now fm ho hE
 
-/-- every event of the history satisfies its hypotheses in the state it is applied to -/
-def HistOk (s : State) : List Op → Prop
-  | [] => True
-  | op :: ops => OpOk op ∧ HistOk (step s op).1 ops
+/-- every event of the history satisfies its hypotheses (the code variant is constant along a history) -/
+def HistOk (cfg : Cfg) (ops : List Op) : Prop := ∀ op ∈ ops, OpOk cfg op
 
-theorem run_refines (s : State) (ops : List Op) (hi : Inv s) (h : HistOk s ops) :
+theorem run_cfg (s : State) (ops : List Op) : (run s ops).1.cfg = s.cfg := by
+  induction ops generalizing s with
+  | nil => rfl
+  | cons op ops ih => simp only [run]; rw [ih, step_cfg]
+
+theorem run_refines (s : State) (ops : List Op) (hi : Inv s) (h : HistOk s.cfg ops) :
     abs (run s ops).1 = (Spec.run (abs s) ops).1 ∧
     (run s ops).2.map (fun os => os.map absOut) = (Spec.run (abs s) ops).2 ∧ Inv (run s ops).1 := by
   induction ops generalizing s with
   | nil => exact ⟨rfl, rfl, hi⟩
   | cons op ops ih =>
-    obtain ⟨ho, hrest⟩ := h
+    have ho : OpOk s.cfg op := h op (by simp)
     obtain ⟨r1, r2⟩ := step_refines s op hi ho
-    obtain ⟨i1, i2, i3⟩ := ih (step s op).1 (step_inv s op hi ho) hrest
+    obtain ⟨i1, i2, i3⟩ := ih (step s op).1 (step_inv s op hi ho)
+      (fun o hm => by rw [step_cfg]; exact h o (by simp [hm]))
     simp only [run, Spec.run, List.map_cons]
     rw [← r1, ← r2]
     exact ⟨i1, by rw [i2], i3⟩
 
 /-! ## at most one entry per (match, priority) -/
 
-/-- the key the strict commands and ADD's replacement compare: `entry.match == match and entry.priority == priority` -/
-def sameKey (a b : FEntry) : Bool := eqMatch a.mtch b.mtch && a.priority == b.priority
+/-- the key the strict commands and ADD's replacement compare: `is_matched_by(strict=True)` without the port filter -/
+def sameKey (cfg : Cfg) (a b : FEntry) : Bool := strictMatch cfg a.mtch b.mtch && a.priority == b.priority
 
-/-- no two entries of the table have equal match (`__eq__`) and equal priority -/
-def Uniq (t : Table EData) : Prop := t.Pairwise (fun a b => sameKey a b = false)
+/-- no two entries of the table are the same flow for the strict test (equal / mutually encompassing match, equal priority) -/
+def Uniq (cfg : Cfg) (t : Table EData) : Prop := t.Pairwise (fun a b => sameKey cfg a b = false)
 
-theorem sameKey_symm {a b : FEntry} (h : sameKey a b = false) : sameKey b a = false := by
+theorem strictMatch_comm (cfg : Cfg) (a b : OfMatch) : strictMatch cfg a b = strictMatch cfg b a := by
+  unfold strictMatch
+  cases cfg.strictMutual
+  · simp only [Bool.false_eq_true, if_false]; exact eqMatch_comm a b
+  · simp only [if_true]; exact Bool.and_comm _ _
+
+theorem sameKey_symm {cfg : Cfg} {a b : FEntry} (h : sameKey cfg a b = false) : sameKey cfg b a = false := by
   unfold sameKey at *
-  rw [eqMatch_comm, show (b.priority == a.priority) = (a.priority == b.priority) from by
+  rw [strictMatch_comm, show (b.priority == a.priority) = (a.priority == b.priority) from by
     rw [Bool.eq_iff_iff]; simp only [beq_iff_eq]; exact eq_comm]
   exact h
 
-theorem uniq_of_keys {t t' : Table EData} (h : t'.map (fun e => (e.mtch, e.priority)) = t.map (fun e => (e.mtch, e.priority)))
-    (hu : Uniq t) : Uniq t' := by
-  have key : ∀ l : Table EData, Uniq l ↔ (l.map (fun e => (e.mtch, e.priority))).Pairwise
-      (fun x y => (eqMatch x.1 y.1 && x.2 == y.2) = false) := by
+theorem uniq_of_keys {cfg : Cfg} {t t' : Table EData}
+    (h : t'.map (fun e => (e.mtch, e.priority)) = t.map (fun e => (e.mtch, e.priority))) (hu : Uniq cfg t) : Uniq cfg t' := by
+  have key : ∀ l : Table EData, Uniq cfg l ↔ (l.map (fun e => (e.mtch, e.priority))).Pairwise
+      (fun x y => (strictMatch cfg x.1 y.1 && x.2 == y.2) = false) := by
     intro l; unfold Uniq sameKey; rw [List.pairwise_map]
   rw [key] at hu ⊢
   rw [h]; exact hu
@@ -755,9 +773,9 @@ theorem keys_modifyFirst (p : FEntry → Bool) (f : FEntry → FEntry) (hf : ∀
     · simp [(hf x).1, (hf x).2]
     · simp [ih]
 
-theorem flowModAdd_uniq (s : State) (fm : FlowModMsg) (hu : Uniq s.table)
-    (hnew : ∀ e ∈ addBase s fm, sameKey (mkEntry s.now fm) e = false) : Uniq (flowModAdd s fm).1.table := by
-  have hb : Uniq (addBase s fm) := hu.sublist (addBase_sublist s fm)
+theorem flowModAdd_uniq (s : State) (fm : FlowModMsg) (hu : Uniq s.cfg s.table)
+    (hnew : ∀ e ∈ addBase s fm, sameKey s.cfg (mkEntry s.cfg s.now fm) e = false) : Uniq s.cfg (flowModAdd s fm).1.table := by
+  have hb : Uniq s.cfg (addBase s fm) := hu.sublist (addBase_sublist s fm)
   unfold flowModAdd flowModFailed
   split
   · exact hu
@@ -765,67 +783,85 @@ theorem flowModAdd_uniq (s : State) (fm : FlowModMsg) (hu : Uniq s.table)
     · exact hu
     · split
       · exact hb
-      · show Uniq (addEntry (mkEntry s.now fm) (addBase s fm))
+      · show Uniq s.cfg (addEntry (mkEntry s.cfg s.now fm) (addBase s fm))
         unfold Uniq
-        rw [(addEntry_perm (mkEntry s.now fm) (addBase s fm)).pairwise_iff (fun h => sameKey_symm h)]
+        rw [(addEntry_perm (mkEntry s.cfg s.now fm) (addBase s fm)).pairwise_iff (fun h => sameKey_symm h)]
         exact List.pairwise_cons.mpr ⟨hnew, hb⟩
 
 theorem addBase_fresh_add (s : State) (fm : FlowModMsg) (hc : fm.cmd = .add) :
-    ∀ e ∈ addBase s fm, sameKey (mkEntry s.now fm) e = false := by
+    ∀ e ∈ addBase s fm, sameKey s.cfg (mkEntry s.cfg s.now fm) e = false := by
   intro e he
   unfold addBase at he
   simp only [hc, List.mem_filter, Bool.not_eq_true', isMatchedBy, if_true, Bool.true_and] at he
   apply sameKey_symm
   exact he.2
 
-theorem step_uniq (s : State) (op : Op) (hu : Uniq s.table) : Uniq (step s op).1.table := by
-  have modCase : ∀ fm strict, fm.cmd ≠ .add → Uniq (flowModModify s fm strict).1.table := by
-    intro fm strict hc
-    unfold flowModModify
-    simp only
-    split
-    · apply uniq_of_keys _ hu
-      apply keys_map
-      intro e
-      split <;> exact ⟨rfl, rfl⟩
-    · rename_i hnone
-      apply flowModAdd_uniq s fm hu
-      have hb : addBase s fm = s.table := by
-        unfold addBase
-        split
-        · exact absurd ‹fm.cmd = Cmd.add› hc
+/-- a match that encompasses itself… both tests of `strictMatch` hold only if the non-strict test holds -/
+theorem matchesWith_of_strict (cfg : Cfg) (entry m : OfMatch) (h : strictMatch cfg entry m = true) : m.matchesWith true entry = true := by
+  unfold strictMatch at h
+  cases hs : cfg.strictMutual
+  · simp only [hs, Bool.false_eq_true, if_false] at h
+    exact matchesWith_of_eqMatch true (eqMatch_symm h)
+  · simp only [hs, if_true, Bool.and_eq_true] at h
+    exact h.1
+
+theorem flowModModify_uniq (s : State) (fm : FlowModMsg) (strict : Bool) (hc : fm.cmd ≠ .add) (hu : Uniq s.cfg s.table) :
+    Uniq s.cfg (flowModModify s fm strict).1.table := by
+  unfold flowModModify
+  simp only
+  split
+  · apply uniq_of_keys _ hu
+    apply keys_map
+    intro e
+    split <;> exact ⟨rfl, rfl⟩
+  · rename_i hnone
+    apply flowModAdd_uniq s fm hu
+    have hb : addBase s fm = s.table := by
+      unfold addBase
+      split
+      · exact absurd ‹fm.cmd = Cmd.add› hc
+      · rfl
+    rw [hb]
+    intro e he
+    have hn : isMatchedBy s.cfg e (rxMatch s.cfg fm.mtch) fm.priority strict none = false := by
+      have := List.any_eq_false.mp (by simpa using hnone) e he
+      simpa using this
+    apply sameKey_symm
+    unfold sameKey
+    unfold isMatchedBy at hn
+    cases strict
+    · simp only [Bool.false_eq_true, if_false, Bool.true_and] at hn
+      have : strictMatch s.cfg e.mtch (rxMatch s.cfg fm.mtch) = false := by
+        cases hq : strictMatch s.cfg e.mtch (rxMatch s.cfg fm.mtch)
         · rfl
-      rw [hb]
-      intro e he
-      have hn : isMatchedBy e (ofWire fm.mtch) fm.priority strict none = false := by
-        have := List.any_eq_false.mp (by simpa using hnone) e he
-        simpa using this
-      apply sameKey_symm
-      unfold sameKey
-      unfold isMatchedBy at hn
-      cases strict
-      · simp only [Bool.false_eq_true, if_false, Bool.true_and] at hn
-        have : eqMatch e.mtch (ofWire fm.mtch) = false := by
-          cases hq : eqMatch e.mtch (ofWire fm.mtch)
-          · rfl
-          · rw [matchesWith_of_eqMatch true (eqMatch_symm hq)] at hn; cases hn
-        show (eqMatch e.mtch (ofWire fm.mtch) && e.priority == fm.priority) = false
-        simp [this]
-      · simp only [if_true, Bool.true_and] at hn
-        exact hn
+        · rw [matchesWith_of_strict _ _ _ hq] at hn; cases hn
+      show (strictMatch s.cfg e.mtch (rxMatch s.cfg fm.mtch) && e.priority == fm.priority) = false
+      simp [this]
+    · simp only [if_true, Bool.true_and] at hn
+      exact hn
+
+theorem flowModHandler_uniq (s : State) (fm : FlowModMsg) (hu : Uniq s.cfg s.table) : Uniq s.cfg (flowModHandler s fm).1.table := by
+  cases hc : fm.cmd
+  · simp only [flowModHandler, hc]
+    exact flowModAdd_uniq s fm hu (addBase_fresh_add s fm hc)
+  · simp only [flowModHandler, hc]
+    exact flowModModify_uniq s fm false (by rw [hc]; intro h; cases h) hu
+  · simp only [flowModHandler, hc]
+    exact flowModModify_uniq s fm true (by rw [hc]; intro h; cases h) hu
+  · simp only [flowModHandler, hc]
+    exact hu.sublist List.filter_sublist
+  · simp only [flowModHandler, hc]
+    exact hu.sublist List.filter_sublist
+  · simp only [flowModHandler, hc]
+    exact hu
+
+theorem step_uniq (s : State) (op : Op) (hu : Uniq s.cfg s.table) : Uniq (step s op).1.cfg (step s op).1.table := by
+  rw [step_cfg]
   cases op with
   | flowMod fm =>
-    cases hc : fm.cmd
-    · simp only [step, flowModStep, hc]
-      exact flowModAdd_uniq s fm hu (addBase_fresh_add s fm hc)
-    · simp only [step, flowModStep, hc]
-      exact modCase fm false (by rw [hc]; decide)
-    · simp only [step, flowModStep, hc]
-      exact modCase fm true (by rw [hc]; decide)
-    · simp only [step, flowModStep, hc]
-      exact hu.sublist List.filter_sublist
-    · simp only [step, flowModStep, hc]
-      exact hu.sublist List.filter_sublist
+    show Uniq s.cfg (flowModStep s fm).1.table
+    rw [flowModStep_table]
+    exact flowModHandler_uniq s fm hu
   | packet p port len =>
     simp only [step, packetStep]
     split
@@ -836,7 +872,7 @@ theorem step_uniq (s : State) (op : Op) (hu : Uniq s.table) : Uniq (step s op).1
   | flowStats m o => exact hu
   | aggStats m o => exact hu
 
-theorem run_uniq (s : State) (ops : List Op) (hu : Uniq s.table) : Uniq (run s ops).1.table := by
+theorem run_uniq (s : State) (ops : List Op) (hu : Uniq s.cfg s.table) : Uniq (run s ops).1.cfg (run s ops).1.table := by
   induction ops generalizing s with
   | nil => exact hu
   | cons op ops ih => exact ih _ (step_uniq s op hu)
@@ -845,31 +881,34 @@ theorem run_uniq (s : State) (ops : List Op) (hu : Uniq s.table) : Uniq (run s o
 
 instance (r : OfMatch) : Decidable (PrereqExact r) := by unfold PrereqExact; exact inferInstance
 
-theorem matchOk_iff (r : OfMatch) : MatchOk r ↔
-    (PrereqExact r ∧ r.nwTos % 4 = 0 ∧ r.wildcards < 2 ^ 22 ∧
-     (Spec.exact r = true → r.dlType = 0x0800 ∧ isL4Proto r.nwProto = true) ∧
-     (Spec.srcIgn r < 32 → r.nwSrc % 2 ^ Spec.srcIgn r = 0) ∧ (Spec.dstIgn r < 32 → r.nwDst % 2 ^ Spec.dstIgn r = 0)) :=
-  ⟨fun h => ⟨h.prereq, h.tos, h.width, h.exactL4, h.hostSrc, h.hostDst⟩, fun ⟨a, b, c, d, e, f⟩ => ⟨a, b, c, d, e, f⟩⟩
+theorem wireOk_iff (cfg : Cfg) (r : OfMatch) : WireOk cfg r ↔
+    (PrereqExact r ∧ r.nwTos % 4 = 0 ∧ (Spec.exact r = true → r.dlType = 0x0800 ∧ isL4Proto r.nwProto = true) ∧
+     (cfg.maskUndefined = false → r.wildcards < 2 ^ 22) ∧
+     (cfg.strictMutual = false → Spec.srcIgn r < 32 → r.nwSrc % 2 ^ Spec.srcIgn r = 0) ∧
+     (cfg.strictMutual = false → Spec.dstIgn r < 32 → r.nwDst % 2 ^ Spec.dstIgn r = 0)) :=
+  ⟨fun h => ⟨h.prereq, h.tos, h.exactL4, h.width, h.hostSrc, h.hostDst⟩, fun ⟨a, b, c, d, e, f⟩ => ⟨a, b, c, d, e, f⟩⟩
 
-instance (r : OfMatch) : Decidable (MatchOk r) := decidable_of_iff _ (matchOk_iff r).symm
+instance (cfg : Cfg) (r : OfMatch) : Decidable (WireOk cfg r) := decidable_of_iff _ (wireOk_iff cfg r).symm
 
-theorem msgOk_iff (fm : FlowModMsg) : MsgOk fm ↔ (MatchOk fm.mtch ∧ fm.priority ≤ 0xffff) :=
+theorem statsOk_iff (cfg : Cfg) (m : OfMatch) : StatsOk cfg m ↔
+    (PrereqExact m ∧ m.nwTos % 4 = 0 ∧ (cfg.statsUnwire = false → ofWirePlain m = ofWire m)) :=
+  ⟨fun h => ⟨h.prereq, h.tos, h.canon⟩, fun ⟨a, b, c⟩ => ⟨a, b, c⟩⟩
+
+instance (cfg : Cfg) (m : OfMatch) : Decidable (StatsOk cfg m) := decidable_of_iff _ (statsOk_iff cfg m).symm
+
+theorem msgOk_iff (cfg : Cfg) (fm : FlowModMsg) : MsgOk cfg fm ↔ (WireOk cfg fm.mtch ∧ fm.priority ≤ 0xffff) :=
   ⟨fun h => ⟨h.mok, h.prio⟩, fun ⟨a, b⟩ => ⟨a, b⟩⟩
 
-instance (fm : FlowModMsg) : Decidable (MsgOk fm) := decidable_of_iff _ (msgOk_iff fm).symm
+instance (cfg : Cfg) (fm : FlowModMsg) : Decidable (MsgOk cfg fm) := decidable_of_iff _ (msgOk_iff cfg fm).symm
 
-instance : (op : Op) → Decidable (OpOk op)
-  | .flowMod fm => inferInstanceAs (Decidable (MsgOk fm))
+instance (cfg : Cfg) : (op : Op) → Decidable (OpOk cfg op)
+  | .flowMod fm => inferInstanceAs (Decidable (MsgOk cfg fm))
   | .packet p _ _ => inferInstanceAs (Decidable (regular p = true ∧ pktTos p % 4 = 0))
-  | .flowStats m _ => inferInstanceAs (Decidable (MatchOk m ∧ ofWirePlain m = ofWire m))
-  | .aggStats m _ => inferInstanceAs (Decidable (MatchOk m ∧ ofWirePlain m = ofWire m))
+  | .flowStats m _ => inferInstanceAs (Decidable (StatsOk cfg m))
+  | .aggStats m _ => inferInstanceAs (Decidable (StatsOk cfg m))
   | .advance _ => isTrue trivial
   | .sweep => isTrue trivial
 
-instance instDecidableHistOk : (s : State) → (ops : List Op) → Decidable (HistOk s ops)
-  | _, [] => isTrue trivial
-  | s, op :: ops =>
-    have := instDecidableHistOk (step s op).1 ops
-    inferInstanceAs (Decidable (OpOk op ∧ HistOk (step s op).1 ops))
+instance (cfg : Cfg) (ops : List Op) : Decidable (HistOk cfg ops) := by unfold HistOk; exact inferInstance
 
 end Pox.FlowMod
